@@ -14,6 +14,7 @@ HARNESSES = [
     Harness('c05_tuple_unchanged_both_ways', 'value.tuple', G + 'tuple<u8, u64>', bounded=FULL),
     Harness('c05_option_unchanged_both_ways', 'value.option', G + 'option<u32>', bounded=FULL),
     Harness('c05_result_unchanged_both_ways', 'value.result', G + 'result<u32, u8>', bounded=FULL),
+    Harness('c05_c06_import_string_and_list_passed_by_reference', 'value.import_string_and_list_passed_by_reference', G.replace('export trampoline(s)', 'import wrapper') + 'string and list<u32> passed to an import (borrowed: no copy, nothing freed)', bounded=HEAP.replace('export direction only', 'import direction')),
     Harness('c05_scalar_record_unchanged_both_ways', 'value.scalar_record', G + 'record { bool, char, s8, s16, s64, f32, f64 }', bounded=FULL),
     Harness('c05_flags_32_and_nested_option_unchanged_both_ways', 'value.flags_32_and_nested_option', G + 'flags with 32 members; option<option<u8>>', bounded=FULL),
     Harness('c05_result_with_one_payload_unchanged_both_ways', 'value.result_one_payload', G + 'result<u32> and result<_, u8>', bounded=FULL),
